@@ -1,12 +1,12 @@
 (* C01 — Every reported solution lies inside the declared search space (partial: H_raw monitored). *)
 From Coq Require Import String List ZArith Bool.
 From PV Require Import Xnum Select PyLib Argsort Vars Vars_proofs Task_proofs Init Init_proofs Skeleton Skeleton_proofs.
-From PVGen Require Import GenInit Algos Expected GenHyper.
-From PVBridge Require Import InitBridge AlgoBridge ProvMain.
+From PVGen Require Import GenInit Algos Expected GenHyper GenTask.
+From PVBridge Require Import InitBridge AlgoBridge ProvMain TaskBridge.
 
-(* correct_solution corrects against `get_variables()`: the flattened variables of the task AS IT IS NOW (regenerated text of the Task accessors: no cache) *)
-Theorem C01_task_accessors_regenerated : gen_task_methods_shape = true.
-Proof. reflexivity. Qed.
+(* correct_solution corrects against `get_variables()`: the REGENERATED comprehension over the task's CURRENT variables is the model's flat_vars (no cache) *)
+Theorem C01_get_variables_regenerated : forall t, gen_task_get_variables t = flat_vars t.
+Proof. exact get_variables_bridge. Qed.
 
 (* the regenerated _init_agent (through initial_solution, _fcn, solve, correct_solution) is the model's *)
 Theorem C01_init_agent_regenerated : forall W dot FT fitness_of obj t d w raw draw,
